@@ -180,6 +180,29 @@ std::string GuardedPosition(std::string text, const std::string& name) {
   return text;
 }
 
+// --- TB3 controls: a position counted down / computed into a local before it is used ------------------
+char CountedDownPosition(const std::string& text, size_t start) {
+  size_t pos = start;
+  while ((static_cast<unsigned char>(text[pos]) & 0xC0) == 0x80)
+    --pos;                                  // nothing keeps pos from passing 0
+  return text[pos];
+}
+
+char CountedDownGuarded(const std::string& text, size_t start) {
+  size_t pos = start;
+  while (pos > 0 && (static_cast<unsigned char>(text[pos]) & 0xC0) == 0x80)
+    --pos;
+  return text[pos];
+}
+
+std::string WindowThroughLocal(const std::string& text, int col) {
+  const size_t kWidth = 72;
+  if (col <= 0 || text.size() <= kWidth)
+    return text;
+  size_t first = col - kWidth / 2;          // wraps for col < 36
+  return text.substr(first, kWidth);
+}
+
 // --- FMT control: text that came from a file used as a printf format ---------------------------------
 void Report(const char* msg, ...) {
   va_list ap;
